@@ -150,3 +150,115 @@ Example C07_rotate_example :
   rotate_loc 100 30 [mkPart 80 95 1] = Ok [mkPart 10 25 1] /\
   rotate_loc 100 30 [mkPart 60 95 1] = Ok [mkPart 90 100 1; mkPart 0 25 1].
 Proof. split; vm_compute; reflexivity. Qed.
+
+(* ---------- get_ruleset: the rulesets handed out do not depend on the history of calls ----------
+   hmm_detection.get_ruleset caches the rulesets it builds, Ruleset.__post_init__ scales the rule
+   OBJECTS it is given in place and copy_with_replacements passes the same objects on; the model
+   (Model.v: object store, parse_rules, post_init, from_files, copy_with_replacements, get_ruleset)
+   keeps that sharing.  For every list of rule files without duplicate rule names and EVERY
+   sequence of calls in one process (any strictness, name and category selections, taxon,
+   multipliers), every call that returns gives a ruleset that holds - read after the LAST call of
+   the sequence, so no later call has touched it - exactly the rules its own request selects, in
+   file order, each with cutoff/neighbourhood = int(written distance * its own multiplier); a call
+   raises (ValueError) only for a non-positive multiplier.  Invariant behind it: a cache miss
+   scales only objects it has just allocated. *)
+Theorem C07_get_ruleset_history_independent : forall files qs st outs,
+  (forall s, NoDup (map r_name (rule_files files s))) ->
+  run_requests files init_state qs = (st, outs) ->
+  Forall2 (fun q o => match o with
+                      | Ok rs => deref (st_heap st) (rs_rules rs) = expected_rules files q /\ rs_mults rs = effective q
+                      | Err e => e = E_Value /\ mults_valid (effective q) = false
+                      end) qs outs.
+Proof. exact get_ruleset_history. Qed.
+Print Assumptions C07_get_ruleset_history_independent.
+
+(* selection by names / categories (as get_ruleset does it) commutes with rule evaluation: the
+   results of the selected, scaled rules are the results the same rules have in the unrestricted
+   ruleset of the same multipliers - for every information function and detector *)
+Theorem C07_selection_then_detection : forall (I O : Type) (info : Z -> I) (detect : rule -> I -> O) files q,
+  let full := map (scale_rule (effective q)) (rule_files files (q_strict q)) in
+  combine (expected_rules files q) (eval_rules r_cutoff info detect [] (expected_rules files q))
+  = filter (fun x => selected (q_names q) (q_cats q) (fst x)) (combine full (eval_rules r_cutoff info detect [] full)).
+Proof. exact @selection_then_detection. Qed.
+Print Assumptions C07_selection_then_detection.
+
+(* ... and with the removal of covered clusters, "modulo SUPERIORS": if the selection contains the
+   superiors of the rules it contains, removing on the selected clusters = selecting the kept ones *)
+Theorem C07_subselection_superiors_closed : forall sup cs (p : Z -> bool),
+  (forall c o, In c cs -> In o cs -> p (pc_rule c) = true ->
+               In (pc_rule o) (superiors_of sup (pc_rule c)) -> p (pc_rule o) = true) ->
+  remove_redundant sup (filter (fun c => p (pc_rule c)) cs) = filter (fun c => p (pc_rule c)) (remove_redundant sup cs).
+Proof. exact remove_redundant_subselection. Qed.
+Print Assumptions C07_subselection_superiors_closed.
+
+(* in general a sub-selection keeps every cluster of a selected rule that the full ruleset keeps,
+   and whatever it keeps in addition is covered by a cluster of a superior rule left out *)
+Theorem C07_subselection_keeps_more : forall sup cs (p : Z -> bool) c,
+  (In c (filter (fun c => p (pc_rule c)) (remove_redundant sup cs)) ->
+   In c (remove_redundant sup (filter (fun c => p (pc_rule c)) cs))) /\
+  (In c (remove_redundant sup (filter (fun c => p (pc_rule c)) cs)) -> ~ In c (remove_redundant sup cs) ->
+   exists o, In o cs /\ p (pc_rule o) = false /\ In (pc_rule o) (superiors_of sup (pc_rule c)) /\
+             (contains (pc_core o) (pc_core c) = true \/ (pc_first c <= pc_last o /\ pc_first o <= pc_last c))).
+Proof. exact remove_redundant_subselection_more. Qed.
+Print Assumptions C07_subselection_keeps_more.
+
+(* non-vacuity: two rule files (terpene-like rule 7: 20000/10000, category 1; rule 8: 5000/20000,
+   category 2; rule 9 in the second file), fungal multipliers 1 and 3/2: full ruleset, then the
+   selection {7}, then the category 2 with other multipliers, then the full ruleset again (a cache
+   hit).  Every answer, read at the end, is what its own request asks for. *)
+Example C07_get_ruleset_example :
+  let files := [[mkRule 7 1 20000 10000; mkRule 8 2 5000 20000]; [mkRule 9 2 10000 10000]] in
+  let fungal := mkMults (1, 1) (3, 2) in
+  let qs := [mkReq 1 [] [] true fungal; mkReq 1 [7] [] true fungal; mkReq 0 [] [2] true (mkMults (5, 2) (1, 2));
+             mkReq 1 [] [] true fungal; mkReq 1 [7] [] false fungal] in
+  (forall s, NoDup (map r_name (rule_files files s))) /\
+  observe files qs =
+    [5; 0; 0; 3; 7; 1; 20000; 15000; 8; 2; 5000; 30000; 9; 2; 10000; 15000;
+        0; 1; 1; 7; 1; 20000; 15000;
+        0; 2; 1; 8; 2; 12500; 10000;
+        0; 0; 3; 7; 1; 20000; 15000; 8; 2; 5000; 30000; 9; 2; 10000; 15000;
+        0; 3; 1; 7; 1; 20000; 10000].
+Proof.
+  cbv zeta. split; [|vm_compute; reflexivity].
+  intros s. unfold rule_files. destruct (Z.to_nat s) as [|[|n]]; cbn; repeat constructor; cbn; intuition discriminate.
+Qed.
+
+(* Finding C07-K2 (recorded, not repaired): the statement "a ruleset holds written distance * its
+   multipliers whatever else is built from it" is FALSE for the public constructors outside
+   get_ruleset.  (a) A copy of a ruleset handed out by get_ruleset - same rules, same multipliers -
+   scales the shared rule objects again, so the ORIGINAL no longer holds what its request asks for
+   (terpene-like rule 20000/10000, fungal 1 and 3/2: 15000 becomes 22500). *)
+Theorem C07_ruleset_copy_history_refuted :
+  exists files q st rs h' rs',
+    get_ruleset files init_state q = Ok (st, rs) /\
+    copy_with_replacements rs (rs_rules rs) (rs_mults rs) (st_heap st) = Ok (h', rs') /\
+    deref (st_heap st) (rs_rules rs) = expected_rules files q /\
+    deref h' (rs_rules rs) <> expected_rules files q.
+Proof. exact ruleset_copy_changes_source. Qed.
+Print Assumptions C07_ruleset_copy_history_refuted.
+
+(* (b) Ruleset.from_files(..., multipliers=m) applies m twice: once in the parser, once in
+   __post_init__ (get_ruleset always passes the unit multipliers here, which hides it) *)
+Theorem C07_from_files_multipliers_refuted :
+  exists base m h rs,
+    NoDup (map r_name base) /\ mults_valid m = true /\
+    from_files base m (st_heap init_state) = Ok (h, rs) /\
+    deref h (rs_rules rs) <> map (scale_rule m) base /\
+    deref h (rs_rules rs) = map (scale_rule m) (map (scale_rule m) base).
+Proof. exact from_files_scales_twice. Qed.
+Print Assumptions C07_from_files_multipliers_refuted.
+
+(* the cache itself: asking again for what was just answered returns the same ruleset and leaves
+   the state (cache and rule objects) as it is *)
+Theorem C07_get_ruleset_repeat : forall files st q st' rs,
+  get_ruleset files st q = Ok (st', rs) -> get_ruleset files st' q = Ok (st', rs).
+Proof. exact get_ruleset_repeat. Qed.
+Print Assumptions C07_get_ruleset_repeat.
+
+(* the rules a request must give depend only on WHICH names and categories it lists, not on the
+   order they are listed in (the cache key does: tuple(set(...)) - a different order is at worst a
+   cache miss, and by C07_get_ruleset_history_independent the rebuilt ruleset holds the same rules) *)
+Theorem C07_selection_order : forall files s ns ns' cs cs' f m, Permutation ns ns' -> Permutation cs cs' ->
+  expected_rules files (mkReq s ns cs f m) = expected_rules files (mkReq s ns' cs' f m).
+Proof. exact expected_rules_perm. Qed.
+Print Assumptions C07_selection_order.
